@@ -1,7 +1,7 @@
 (* C19 - Inventory filtering implements exactly the documented wildcard semantics.
    Statements only; proofs are in Inv/WildProofs.v. *)
 From Coq Require Import List NArith Bool.
-From MV Require Import Base.PyStr Inv.WildModel Inv.WildProofs.
+From MV Require Import Base.PyStr Inv.WildModel Inv.WildProofs Inv.SphinxModel Inv.SphinxProofs.
 Import ListNotations.
 
 (* '*' any run of characters, '\*' a literal star, every other character only itself:
@@ -21,6 +21,23 @@ Theorem C19_filter_exact : forall invs qi qd qo qt,
   filter_inventories invs qi qd qo qt = filter (match4 qi qd qo qt) (flatten invs).
 Proof. exact filter_exact. Qed.
 Print Assumptions C19_filter_exact.
+
+(* identical for the native and the Sphinx in-memory representation of the same data (the native
+   base_url is not part of the Sphinx format): for every list of well-formed inventories (unique keys
+   at each level, no ':' in domain names, display text neither "" nor "-") and every filter. *)
+Theorem C19_native_equals_sphinx : forall invs qi qd qo qt,
+  forallb (fun '(k, i) => wf_inv i) invs = true ->
+  filter_sphinx_inventories (map (fun '(k, i) => (k, to_sphinx i)) invs) qi qd qo qt =
+  map erase_base (filter_inventories invs qi qd qo qt).
+Proof. exact native_equals_sphinx. Qed.
+Print Assumptions C19_native_equals_sphinx.
+
+(* the premise on display texts is necessary: "" becomes "-" becomes None *)
+Theorem C19_sphinx_text_refuted :
+  exists invs, filter_sphinx_inventories (map (fun '(k, i) => (k, to_sphinx i)) invs) None None None None
+               <> map erase_base (filter_inventories invs None None None None).
+Proof. exact sphinx_text_refuted. Qed.
+Print Assumptions C19_sphinx_text_refuted.
 
 (* inv: link: none -> missing warning, one -> that entry, several -> ambiguous warning + first *)
 Theorem C19_inv_link : forall ms,
